@@ -78,9 +78,22 @@ class Tracer:
                 ),
                 "jg": tg.job_graph.name if tg.job_graph is not None else "",
                 "cp": self.tm(tg.critical_path_runtime),
+                # closed-loop parameters of the job graph (0 otherwise): concurrency and number of invocations
+                "conc": self._cl(tg, "concurrency"),
+                "ninv": self._cl(tg, "num_invocations"),
             }
             self.new_static.append({"graph": stat, "tasks": [self.static_task(t, tg) for t in tg.get_nodes()]})
         return i
+
+    @staticmethod
+    def _cl(tg, attr):
+        try:
+            rp = tg.job_graph.release_policy
+            if rp is not None and rp.policy_type.name == "CLOSED_LOOP":
+                return int(getattr(rp, attr))
+        except Exception:  # noqa
+            pass
+        return 0
 
     def task_index(self, t, tg=None):
         i = self.tidx.get(t.id)
